@@ -98,12 +98,17 @@ def step_refine(ctx):
     if op.startswith("shuffle("):
         return _shuffle_preserves(ctx, pre, tags)
     if method == "H.random_edge_shuffle":
-        if len(pre["edges"]) >= 2 and not (ctx.out.raised and _liberr(ctx.out.exc_obj)):
+        try:
+            args = eval("(lambda *a: a)" + op[len(method):])
+        except Exception:  # noqa: BLE001
+            return out
+        missing = any(a not in pre["members"] for a in args)
+        if missing and len(pre["edges"]) >= 2 and not (ctx.out.raised and _liberr(ctx.out.exc_obj)):
             out.append(("wrong-error", f"{op} with a missing edge ID: {ctx.out.label()}", tags))
-        return out
+        return out  # with all IDs present the call uses the real RNG: judged through the owned-RNG `shuffle(...)` operations
     R = refmodel.model_for(pre["cls"])().load(pre)
     try:
-        res = eval(op, {"H": R})
+        res = eval(op, {"H": R, "aliased": lambda f, m: f(m)})
     except Exception:  # noqa: BLE001 - the model does not define this call shape
         return out
     if not isinstance(res, refmodel.Res):
